@@ -62,6 +62,22 @@ def minimize [DecidableEq R] (p : List R) : List R :=
 
 def eval2 (p : List (List R)) (x y : R) : R := eval (p.map (fun row => eval row y)) x
 
+/-- `Poly2DType.minimize_order` (blocks.py): keep rows up to the last one holding a non-zero coefficient and columns up to the
+    last one holding a non-zero coefficient; an all-zero array becomes `[[0]]` -/
+def dropTrailingZeroRows [DecidableEq R] : List (List R) → List (List R)
+  | [] => []
+  | r :: l =>
+    let t := dropTrailingZeroRows l
+    if t = [] ∧ dropTrailingZeros r = [] then [] else r :: t
+
+def lastCol [DecidableEq R] : List (List R) → Nat
+  | [] => 0
+  | r :: l => max (dropTrailingZeros r).length (lastCol l)
+
+def minimize2 [DecidableEq R] (p : List (List R)) : List (List R) :=
+  let q := dropTrailingZeroRows p
+  if q = [] then [[0]] else q.map (fun r => r.take (lastCol q))
+
 def rowSubScaled (t0 : R) (a b : List R) : List R := List.zipWith (fun u v => u - t0 * v) a b
 
 def pass2 (t0 : R) : List (List R) → List (List R)
